@@ -87,6 +87,9 @@ NNbr == Len(NbrCat)
 (* a DisableMP session is only asked for prefixes of its own family (assumption of the check) *)
 AllowedAdvs(n, A) == IF NbrCat[n].disablemp THEN {a \in A : AdvCat[a].p.fam = NbrCat[n].afam} ELSE A
 
+RECURSIVE AnySeq(_)
+AnySeq(S) == IF S = {} THEN <<>> ELSE LET m == CHOOSE m \in S : TRUE IN <<m>> \o AnySeq(S \ {m})
+
 RECURSIVE SetToSeq(_)
 SetToSeq(S) == IF S = {} THEN <<>> ELSE LET m == CHOOSE m \in S : \A o \in S : m <= o IN <<m>> \o SetToSeq(S \ {m})
 
@@ -100,7 +103,7 @@ Sess(n, A, pre, ghost) ==
 
 ----------------------------------------------------------------------------
 (* role B: inputs.  inp = [bucket, ns |-> sequence of catalogue indices (increasing), as |-> their advertisement sets] *)
-Sizes == IF Tier = "thorough" THEN [pair |-> 300, triple |-> 450]
+Sizes == IF Tier = "thorough" THEN [pair |-> 150, triple |-> 200]
          ELSE IF Tier = "quick" THEN [pair |-> 24, triple |-> 8]
          ELSE [pair |-> 1, triple |-> 1]
 
@@ -108,16 +111,16 @@ PairsOf == {t \in (1..NNbr) \X (1..NNbr) : t[1] < t[2]}
 TriplesOf == {t \in (1..NNbr) \X (1..NNbr) \X (1..NNbr) : t[1] < t[2] /\ t[2] < t[3]}
 Sample(t, k) == {[ns |-> t, as |-> f] : f \in RandomSubset(k, [1..Len(t) -> AdvSets])}
 SingleAdvSets == IF Tier = "tiny" THEN {{}, {2, 3, 8}, {4, 5, 10}} ELSE AdvSets
-(* one bucket per set of neighbors; the samples are drawn once, at start-up (constant level), so that *)
-(* they depend on -seed only; the buckets are then expanded by the TLC workers in parallel          *)
+(* one bucket per set of neighbors.  The samples are drawn while TLC computes the initial states (one *)
+(* thread, so they depend on -seed only) and travel in the bucket state; the buckets are then        *)
+(* expanded by the TLC workers in parallel.                                                          *)
 Buckets == {<<n>> : n \in 1..NNbr} \cup PairsOf \cup TriplesOf
-BucketInputs ==
-  [t \in Buckets |->
-     IF Len(t) = 1 THEN {[ns |-> t, as |-> <<A>>] : A \in SingleAdvSets}
-     ELSE Sample(t, IF Len(t) = 2 THEN Sizes.pair ELSE Sizes.triple)]
+BucketInputs(t) ==
+  IF Len(t) = 1 THEN {[ns |-> t, as |-> <<A>>] : A \in SingleAdvSets}
+  ELSE Sample(t, IF Len(t) = 2 THEN Sizes.pair ELSE Sizes.triple)
 
-Init == inp \in {[bucket |-> TRUE, ns |-> t, as |-> <<>>] : t \in Buckets}
-Next == inp.bucket /\ inp' \in {[bucket |-> FALSE, ns |-> i.ns, as |-> i.as] : i \in BucketInputs[inp.ns]}
+Init == inp \in {[bucket |-> TRUE, ns |-> t, as |-> <<>>, pool |-> BucketInputs(t)] : t \in Buckets}
+Next == inp.bucket /\ inp' \in {[bucket |-> FALSE, ns |-> i.ns, as |-> i.as, pool |-> {}] : i \in inp.pool}
 
 K == Len(inp.ns)
 (* the history variant: a session that does not belong to the set is created, advertises, and is closed again *)
@@ -144,7 +147,17 @@ Orders ==
   ELSE IF K = 2 THEN <<OrdA(<<1, 2>>), OrdB(<<2, 1>>), OrdH>>
   ELSE <<OrdA(<<1, 2, 3>>), OrdB(<<1, 3, 2>>), OrdA(<<2, 3, 1>>), OrdB(<<2, 1, 3>>), OrdA(<<3, 1, 2>>), OrdB(<<3, 2, 1>>), OrdH>>
 
-Emit == inp.bucket \/ PrintT(ToJson([node |-> "node-a", ns |-> "metallb-system", sessions |-> Sessions, orders |-> Orders]))
+(* password handling of the speaker (passwordForSession): what a peer configuration can hold after loading *)
+(* (plain password, or a secret reference together with the secret's content, or nothing) x BGP             *)
+(* implementation x secret handling                                                                        *)
+PwCases ==
+  {[pw |-> c[1], secretpw |-> c[2], ref |-> c[3], impl |-> im, handling |-> h] :
+     c \in {<<"", "", NoRef>>, <<"plain-pw", "", NoRef>>, <<"", "from-secret", Ref("peer-secret")>>},
+     im \in {"native", "frr", "frr-k8s"}, h \in {"passthrough", "convert"}}
+
+Emit ==
+  IF inp.bucket THEN inp.ns # <<1>> \/ PrintT(ToJson([pwcases |-> AnySeq(PwCases)]))
+  ELSE PrintT(ToJson([node |-> "node-a", ns |-> "metallb-system", sessions |-> Sessions, orders |-> Orders]))
 
 ----------------------------------------------------------------------------
 (* role A: the designed generator.  Names are tuples: only their identity matters. *)
@@ -152,8 +165,6 @@ FamAf(f) == IF f = 4 THEN "ip" ELSE "ipv6"
 FamAf2(f) == IF f = 4 THEN "ipv4" ELSE "ipv6"
 NoP == [s |-> "", fam |-> 0, oct |-> <<>>, len |-> 0]
 
-RECURSIVE AnySeq(_)
-AnySeq(S) == IF S = {} THEN <<>> ELSE LET m == CHOOSE m \in S : TRUE IN <<m>> \o AnySeq(S \ {m})
 Numbered(S) == LET q == AnySeq(S) IN [i \in 1..Len(q) |-> [q[i] EXCEPT !.seq = i]]
 
 PlE(f, name, action, any, p) == [af |-> FamAf(f), name |-> name, seq |-> 0, action |-> action, any |-> any, p |-> p, ge |-> -1, le |-> -1]
@@ -262,6 +273,13 @@ GenCR(S, L, node) ==
                    prefixes |-> SortP(UNION {ReqPrefixes(S[i]) : i \in SessIn(S, L, vs[r])}),
                    neighbors |-> [j \in DOMAIN ls |-> GenCRNbr(S[ls[j]])]]]]
 
+(* the designed choice: FRR-K8s with pass-through hands over the reference, everything else the plain text *)
+PwChoice(c) ==
+  IF c.impl = "frr-k8s" /\ c.handling = "passthrough" THEN [password |-> c.pw, secret |-> c.ref]
+  ELSE [password |-> IF c.secretpw # "" THEN c.secretpw ELSE c.pw, secret |-> NoRef]
+DesignPw == \A c \in PwCases : PwFails(c, PwChoice(c).password, PwChoice(c).secret) = {}
+ASSUME DesignPw
+
 LiveD == {i \in DOMAIN Sessions : ~Sessions[i].ghost}
 Design14 == inp.bucket \/ Fails14(Sessions, LiveD, Gen(Sessions, LiveD)) = {}
 Design15 ==
@@ -305,6 +323,22 @@ Lemmas ==
         /\ ~RmApply(pr(<<g>>), "undefined", Norm(P1)).permit
         /\ RmApply(pr(<<g, RmE("m", "permit", 2, <<>>, <<[kind |-> "comm", vals |-> <<C100>>, additive |-> FALSE]>>, "")>>),
                    "m", Norm(P1)).attrs.comms = {C100}
+  (* B1-B3: no route-map statement = everything passes, except to an eBGP neighbor once `no bgp ebgp-requires-policy`  *)
+  (* is gone; no `no bgp network import-check` = nothing originated; no `no bgp default ipv4-unicast` = ipv4 active     *)
+  /\ LET noPol == [LOk EXCEPT !.afstmts = SelectSeq(LOk.afstmts, LAMBDA a : a.kind # "route-map")]
+         dropFlag(pr, fl) == [pr EXCEPT !.routers = [r \in DOMAIN pr.routers |->
+                                 [pr.routers[r] EXCEPT !.flags = SelectSeq(pr.routers[r].flags, LAMBDA x : x # fl)]]]
+         strict == dropFlag(noPol, "no bgp ebgp-requires-policy")
+         noAct == [LOk EXCEPT !.afstmts = SelectSeq(LOk.afstmts, LAMBDA a : a.kind = "network")]
+     IN /\ {r.prefix : r \in Offered(noPol, "", "10.2.2.254")} = Originated(LOk, "") /\ Originated(LOk, "") # {}
+        /\ {"C14.InboundDenied", "C14.OtherRejected", "C14.ExactPerNeighbor"} \subseteq Fails14(LS, LL, noPol)
+        /\ Offered(strict, "", "10.2.2.254") = {}                                        \* n1: eBGP
+        /\ {r.prefix : r \in Offered(strict, "", "10.2.2.255")} = Originated(LOk, "")    \* n2: iBGP
+        /\ Originated(dropFlag(LOk, "no bgp network import-check"), "") = {}
+        /\ "C14.Originated" \in Fails14(LS, LL, dropFlag(LOk, "no bgp network import-check"))
+        /\ ~Activated(noAct, "", "10.2.2.254", 4)
+        /\ Activated(dropFlag(noAct, "no bgp default ipv4-unicast"), "", "10.2.2.254", 4)
+        /\ ~Activated(dropFlag(noAct, "no bgp default ipv4-unicast"), "", "10.2.2.254", 6)
   (* the designed resource: a local preference of 0 listed, or a community on a prefix that did not ask for it *)
   /\ LET cr == GenCR(LS, LL, "node-a")
      IN /\ Fails15(LS, LL, cr, "node-a") = {}
